@@ -207,3 +207,55 @@ def dtype_narrow(ctx, modules=None):
             raise AssertionError('DTYPE-NARROW fixture not recognised')
         ctx.ob('DTYPE-NARROW', True, None, 'positive fixture: three narrowing casts detected, two '
                'double casts silent', key='fixture')
+
+
+# ------------------------------------------------------------------ DTYPE-FILL
+def dtype_fill(ctx, modules=None):
+    """`np.full(shape, fill)` without a dtype takes the dtype of `fill`.  When `fill` is data (an
+    argument, a field, a selection of one) and not a float-valued expression, a buffer that is
+    kept (stored in a field, returned) is integer- or single-typed for integer- or single-typed
+    input, and every later float store into it is truncated in silence (round-10 seed
+    C01-buffers-inherit-pva-dtype: the integrator's state buffers pre-filled with the initial
+    Pva).  `np.full(shape, fill, dtype=float)` / a float literal / np.nan pass."""
+    ctx.rule('DTYPE-FILL', 'no kept buffer is allocated by np.full / np.full_like with the dtype of '
+             'a data-valued fill')
+    n = 0
+    for f in ctx.repo.all_functions():
+        if modules and f.module.name.split('.')[-1] not in modules:
+            continue
+        loc = f.local_names()
+        res = lambda e: f.module.resolve(e, loc) if isinstance(e, (ast.Name, ast.Attribute)) \
+            else None
+        for st in ast.walk(f.node):
+            if not isinstance(st, (ast.Assign, ast.Return)) or st.value is None:
+                continue
+            for c in ast.walk(st.value):
+                if not (isinstance(c, ast.Call) and res(c.func) == 'numpy.full' and
+                        len(c.args) >= 2):
+                    continue
+                n += 1
+                has_dt = len(c.args) >= 3 or any(k.arg == 'dtype' for k in c.keywords)
+                fill = c.args[1]
+                # data selected from an argument / a field, possibly through dtype-preserving
+                # wrappers; the result of any other call has a dtype of its own (not judged)
+                core = fill
+                while isinstance(core, ast.Call) and res(core.func) in PRESERVING and core.args \
+                        and not any(k.arg == 'dtype' for k in core.keywords):
+                    core = core.args[0]
+                data = isinstance(core, (ast.Name, ast.Attribute, ast.Subscript)) and \
+                    (res(core) or '').split('.')[0] not in ('numpy', 'math')
+                floaty = any(isinstance(x, ast.Constant) and isinstance(x.value, float)
+                             for x in ast.walk(fill)) or any(
+                    isinstance(x, ast.BinOp) and isinstance(x.op, ast.Div) for x in ast.walk(fill)) \
+                    or (res(fill) or '') in ('numpy.nan', 'numpy.inf', 'numpy.pi')
+                kept = isinstance(st, ast.Return) or any(
+                    isinstance(t, ast.Attribute) for t in getattr(st, 'targets', []))
+                ok = has_dt or not data or floaty or not kept
+                ctx.ob('DTYPE-FILL', ok, None, '%s: `%s` has its own dtype' % (
+                    f.qualname, norm_text(c)[:50]), f=f, node=st,
+                    key='fill-%s-%s' % (f.qualname, norm_text(c)[:40]),
+                    why='`%s` allocates a buffer whose dtype is that of `%s`: with an integer- or '
+                        'single-precision input the buffer is integer / single typed and the '
+                        'float values stored into it later are truncated without notice'
+                        % (norm_text(c)[:70], norm_text(fill)[:40]))
+    ctx.ob('DTYPE-FILL', True, None, '%d np.full allocations examined' % n, key='summary')
